@@ -144,7 +144,8 @@ PresetEnv ==
                                                  Prop("meta", Obj(<<Prop("kind", Uni(<<LS("p"), LS("q")>>), FALSE)>>, <<>>), FALSE)>>, <<>>)] >>
   ELSE <<>>
 
-FreshName == IF env = <<>> THEN "A" ELSE IF Len(env) = 1 THEN "B" ELSE "C"
+\* in the describe family the second declaration takes the name describe() gives the root alias (Codec + parser key)
+FreshName == IF env = <<>> THEN "A" ELSE IF Len(env) = 1 THEN (IF Family = "describe" THEN "CodecT" ELSE "B") ELSE "C"
 
 ApplyUnary(a, t) ==
   CASE a = "arr"      -> Arr(t)
